@@ -270,6 +270,30 @@ pub fn run(ctx: &Ctx) -> i32 {
             check(&under_path(leaf, &filler, &path), acc);
         }
     }));
+    // every way a format can end: each octal escape value, literals that merely spell an escape,
+    // more than one newline; alone, after a name test, and next to a plain -print
+    {
+        let mut ends: Vec<Vec<Fmt>> = (0u16..512).map(|n| vec![Fmt::Field(Field::Name), Fmt::Special(Special::Ascii(n))]).collect();
+        for l in ["\\n", "\n", "n", "\\", "\\012", "~%", "\r\n"] {
+            ends.push(vec![Fmt::Field(Field::Name), Fmt::Lit(l.into())]);
+            ends.push(vec![Fmt::Lit(l.into())]);
+        }
+        for sp in [Special::Alarm, Special::Backspace, Special::Form, Special::CarriageReturn, Special::Tab, Special::VTab, Special::Null, Special::Backslash, Special::Newline] {
+            ends.push(vec![Fmt::Field(Field::Name), Fmt::Special(sp.clone())]);
+            ends.push(vec![Fmt::Field(Field::Name), nl(), Fmt::Special(sp.clone())]);
+            ends.push(vec![Fmt::Field(Field::Name), Fmt::Special(sp), nl()]);
+        }
+        ends.push(vec![Fmt::Field(Field::Name), nl(), nl()]);
+        ends.push(vec![nl(), nl(), nl()]);
+        let mut e = Acc::new();
+        for f in ends {
+            let a = Expr::Action(Action::Printf(f));
+            check(&a, &mut e);
+            check(&Expr::and(Expr::Test(Test::Name("x".into())), a.clone()), &mut e);
+            check(&Expr::or(Expr::Action(Action::Print), Expr::not(a)), &mut e);
+        }
+        acc = acc.merge(e);
+    }
     // the same node queried before and after it is changed in place (through the public Rc), and
     // large trees dropped and rebuilt in a loop (allocations get reused)
     {
